@@ -50,7 +50,7 @@ def log_acceptance(kind: str, ctx, it: dict, crit=None) -> tuple[float | None, d
         ke_ref = it.get("ke_ref")
         if ke_ref is None:
             ke_ref = float(ctx.last_kinetic_energy)
-        det["ke_ref_source"] = "recorded at the momentum refresh" if it.get("ke_ref") is not None else "context"
+        det["ke_ref_source"] = "recorded at the start of the trajectory" if it.get("ke_ref") is not None else "context"
         dH = (e_cur + float(atoms.get_kinetic_energy())) - float(ctx.last_potential_energy) - float(ke_ref)
         det["dH"] = dH
         return -dH / kT, det
@@ -163,6 +163,10 @@ def make_wrapper(rec: Rec, kind: str, orig, is_static: bool):
             return out
         rec.evaluations += 1
         rec.count("judged:" + kind)
+        if kind == "hamiltonian":
+            rec.count("hamiltonian_reference_from_" + ("trajectory_start" if det.get("ke_ref_source", "").startswith("recorded") else "context"))
+            if it.pop("trajectories", 0) >= 2:
+                rec.count("judged:hamiltonian:after-a-vetoed-trajectory")
         if kind == "grand":
             rec.count("judged:grand:" + ("insert" if det.get("dN") == 1 else "delete"))
             if det.get("dN") == -1 and det.get("N", 1) <= 0:
@@ -226,6 +230,27 @@ def install(rec: Rec) -> None:
             cls.evaluate = staticmethod(make_wrapper(rec, kind, raw.__func__, True))
         else:
             cls.evaluate = make_wrapper(rec, kind, raw, False)
+    # the reference kinetic energy of a Hamiltonian trial is that of the momenta the trajectory starts from: recorded
+    # here, on entry to the integrator, for every trajectory (a vetoed trajectory that is tried again starts from
+    # freshly drawn momenta and is recorded again) -- never read back from what the context remembers
+    import quansino.integrators.displacement as qi
+
+    for cname in ("Verlet",):
+        icls = getattr(qi, cname, None)
+        raw = icls.__dict__.get("integrate") if icls is not None else None
+        if raw is None:
+            rec.inconclusive.append(f"integrator {cname}.integrate not found")
+            continue
+
+        def integrate(self, context, *a, _raw=raw, **kw):
+            it = INTENT.get(id(context))
+            if it is not None:
+                it["ke_ref"] = float(context.atoms.get_kinetic_energy())
+                it["trajectories"] = it.get("trajectories", 0) + 1
+                rec.count("trajectory_start_kinetic_energy_recorded")
+            return _raw(self, context, *a, **kw)
+
+        icls.integrate = integrate
 
 
 def freq_data() -> dict:
